@@ -97,25 +97,161 @@ func Drive(ck *Check, tier string, seed int64, self, bin, root string, workers i
 	defer os.RemoveAll(base)
 	known, _ := LoadKnown(root)
 	agg := NewAgg()
+	runShards(ck, tier, seed, self, bin, root, workers, n, base, nil, known, agg, "main")
+	// secondary sanitizer pass: repeat a slice of the case list under a -race build (race detector + checkptr)
+	var san *sanitizerObs
+	if tier == "thorough" && ck.RaceSliceCases > 0 && raceSelf != "" {
+		if _, err := os.Stat(raceSelf); err == nil {
+			san = &sanitizerObs{}
+			rn := ck.RaceSliceCases
+			if rn > n {
+				rn = n
+			}
+			logBase := filepath.Join(base, "racelog")
+			_ = os.MkdirAll(logBase, 0o755)
+			ragg := NewAgg()
+			runShards(ck, tier, seed, raceSelf, bin, root, workers, rn, base, []string{"VERIF_RACE=1", "GORACE=halt_on_error=0 log_path=" + filepath.Join(logBase, "race")}, known, ragg, "race")
+			san.Cases = ragg.Evaluations
+			san.Violations = len(ragg.Violations)
+			san.Crashes = len(ragg.Crashes)
+			files, _ := filepath.Glob(filepath.Join(logBase, "race*"))
+			for _, f := range files {
+				if b, err := os.ReadFile(f); err == nil {
+					san.RaceReports += strings.Count(string(b), "WARNING: DATA RACE")
+				}
+			}
+			for _, c := range ragg.Crashes {
+				if strings.Contains(c, "checkptr") {
+					san.CheckptrFaults++
+				}
+			}
+			// a violation found only under the race build is a violation all the same
+			for _, v := range ragg.Violations {
+				v.Detail = "[under -race build] " + v.Detail
+				agg.Violations = append(agg.Violations, v)
+			}
+		}
+	}
+
+	wall := time.Since(start).Seconds()
+	// verdict
+	verdict := 0
+	reasons := []string{}
+	if len(agg.Violations) > 0 {
+		verdict = 1
+	}
+	if verdict == 0 {
+		if agg.Evaluations < n {
+			reasons = append(reasons, fmt.Sprintf("only %d of %d cases reported", agg.Evaluations, n))
+		}
+		if len(agg.NonTrivial) < ck.MinNonTrivial || len(agg.NonTrivial) < 2 {
+			reasons = append(reasons, fmt.Sprintf("distinct non-trivial cases %d below floor %d", len(agg.NonTrivial), ck.MinNonTrivial))
+		}
+		if ck.MinEffectiveShare > 0 && float64(agg.Effective) < ck.MinEffectiveShare*float64(agg.Evaluations) {
+			reasons = append(reasons, fmt.Sprintf("effective share %d/%d below floor %.2f", agg.Effective, agg.Evaluations, ck.MinEffectiveShare))
+		}
+		for ev, min := range ck.RequiredEvents {
+			if agg.Events[ev] < min {
+				reasons = append(reasons, fmt.Sprintf("deciding event %q observed %d times (< %d)", ev, agg.Events[ev], min))
+			}
+		}
+		if !ck.CrashIsViolation && len(agg.Crashes)*20 > n {
+			reasons = append(reasons, fmt.Sprintf("%d cases lost to crashes/watchdog", len(agg.Crashes)))
+		}
+		if len(agg.Inconclusive)*10 > n {
+			reasons = append(reasons, fmt.Sprintf("%d cases inconclusive", len(agg.Inconclusive)))
+		}
+		if len(reasons) > 0 {
+			verdict = 3
+		}
+	}
+	writeEvidence(ck, tier, seed, agg, wall, root, reasons, san)
+
+	// report
+	sort.Slice(agg.Violations, func(i, j int) bool { return agg.Violations[i].Case < agg.Violations[j].Case })
+	for _, k := range known {
+		if k.Property == ck.ID && agg.Known[k.Finding] > 0 {
+			fmt.Printf("KNOWN-FINDING: property=%s finding=%s %s (seen %d times in this run)\n", ck.ID, k.Finding, k.Text, agg.Known[k.Finding])
+		}
+	}
+	printed := 0
+	for _, v := range agg.Violations {
+		if printed < 25 {
+			rp := v.Replay
+			if rp == "" {
+				rp = fmt.Sprintf("%s/replays/%s/%s-%d-%d(not-saved;regenerate:./check.sh replay-case %s %s %d %d)", root, ck.ID, tier, seed, v.Case, ck.ID, tier, seed, v.Case)
+			}
+			fmt.Printf("VIOLATION property=%s replay=%s\n", ck.ID, rp)
+			fmt.Printf("  monitor=%s sig=%s case=%d\n  expected: %s\n  observed: %s\n", v.Monitor, v.Sig, v.Case, oneLine(v.Expected), oneLine(v.Observed))
+			if v.Detail != "" {
+				fmt.Printf("  detail: %s\n", oneLine(v.Detail))
+			}
+		}
+		printed++
+	}
+	if len(agg.Violations) > 0 {
+		bySig := map[string]int{}
+		for _, v := range agg.Violations {
+			bySig[v.Sig]++
+		}
+		for _, k := range sortedKeys(bySig) {
+			fmt.Printf("  violations with sig %s: %d\n", k, bySig[k])
+		}
+	}
+	if printed > 25 {
+		fmt.Printf("  … %d further violations not printed\n", printed-25)
+	}
+	for _, c := range agg.Crashes {
+		fmt.Printf("CASE-LOST %s\n", oneLine(c))
+	}
+	for i, c := range agg.Inconclusive {
+		if i < 10 {
+			fmt.Printf("CASE-INCONCLUSIVE %s\n", oneLine(c))
+		}
+	}
+	fmt.Printf("%s %s seed=%d: cases=%d nontrivial=%d effective=%d violations=%d known=%d inconclusive=%d lost=%d wall=%.1fs\n",
+		ck.ID, tier, seed, agg.Evaluations, len(agg.NonTrivial), agg.Effective, len(agg.Violations), sumInts(agg.Known), len(agg.Inconclusive), len(agg.Crashes), wall)
+	evs := []string{}
+	for k, v := range agg.Events {
+		evs = append(evs, fmt.Sprintf("%s=%d", k, v))
+	}
+	sort.Strings(evs)
+	fmt.Printf("  observed: %s\n", strings.Join(evs, " "))
+	if verdict == 3 {
+		fmt.Printf("INCONCLUSIVE property=%s: %s\n", ck.ID, strings.Join(reasons, "; "))
+	}
+	return verdict
+}
+
+type sanitizerObs struct {
+	Cases          int `json:"cases_repeated_under_race_build"`
+	RaceReports    int `json:"race_reports"`
+	CheckptrFaults int `json:"checkptr_faults"`
+	Crashes        int `json:"crashes"`
+	Violations     int `json:"violations"`
+}
+
+// runShards runs cases 0..n-1 of a check in worker processes (executable exe0) and adds their results to agg.
+func runShards(ck *Check, tier string, seed int64, exe0, bin, root string, workers, n int, base string, extraEnv []string, known []Known, agg *Agg, tag string) {
+	deadline := time.Now().Add(3 * time.Hour)
+	lost := 0
 	var mu sync.Mutex
 	var wg sync.WaitGroup
-	lost := 0
-	deadline := time.Now().Add(3 * time.Hour)
 	for s := 0; s < workers; s++ {
 		wg.Add(1)
 		go func(s int) {
 			defer wg.Done()
 			from := s
 			for attempt := 0; from < n && attempt < 50; attempt++ {
-				wd := filepath.Join(base, fmt.Sprintf("w%d-%d", s, attempt))
+				wd := filepath.Join(base, fmt.Sprintf("%s-w%d-%d", tag, s, attempt))
 				_ = os.MkdirAll(wd, 0o755)
 				out := filepath.Join(wd, "out.jsonl")
 				journal := filepath.Join(wd, "journal")
-				exe := self
+				exe := exe0
 				cmd := exec.Command(exe, "worker", ck.ID, tier, strconv.FormatInt(seed, 10), strconv.Itoa(from), strconv.Itoa(workers),
 					strconv.Itoa(n), out, journal, bin, root)
 				cmd.Dir = wd
-				cmd.Env = append(os.Environ(), "GOTRACEBACK=all")
+				cmd.Env = append(append(os.Environ(), "GOTRACEBACK=all"), extraEnv...)
 				logf, _ := os.Create(filepath.Join(wd, "stderr"))
 				cmd.Stdout = logf
 				cmd.Stderr = logf
@@ -198,94 +334,7 @@ func Drive(ck *Check, tier string, seed int64, self, bin, root string, workers i
 	}
 	wg.Wait()
 
-	wall := time.Since(start).Seconds()
-	// verdict
-	verdict := 0
-	reasons := []string{}
-	if len(agg.Violations) > 0 {
-		verdict = 1
-	}
-	if verdict == 0 {
-		if agg.Evaluations < n {
-			reasons = append(reasons, fmt.Sprintf("only %d of %d cases reported", agg.Evaluations, n))
-		}
-		if len(agg.NonTrivial) < ck.MinNonTrivial || len(agg.NonTrivial) < 2 {
-			reasons = append(reasons, fmt.Sprintf("distinct non-trivial cases %d below floor %d", len(agg.NonTrivial), ck.MinNonTrivial))
-		}
-		if ck.MinEffectiveShare > 0 && float64(agg.Effective) < ck.MinEffectiveShare*float64(agg.Evaluations) {
-			reasons = append(reasons, fmt.Sprintf("effective share %d/%d below floor %.2f", agg.Effective, agg.Evaluations, ck.MinEffectiveShare))
-		}
-		for ev, min := range ck.RequiredEvents {
-			if agg.Events[ev] < min {
-				reasons = append(reasons, fmt.Sprintf("deciding event %q observed %d times (< %d)", ev, agg.Events[ev], min))
-			}
-		}
-		if !ck.CrashIsViolation && len(agg.Crashes)*20 > n {
-			reasons = append(reasons, fmt.Sprintf("%d cases lost to crashes/watchdog", len(agg.Crashes)))
-		}
-		if len(agg.Inconclusive)*10 > n {
-			reasons = append(reasons, fmt.Sprintf("%d cases inconclusive", len(agg.Inconclusive)))
-		}
-		if len(reasons) > 0 {
-			verdict = 3
-		}
-	}
-	writeEvidence(ck, tier, seed, agg, wall, root, reasons)
-
-	// report
-	sort.Slice(agg.Violations, func(i, j int) bool { return agg.Violations[i].Case < agg.Violations[j].Case })
-	for _, k := range known {
-		if k.Property == ck.ID && agg.Known[k.Finding] > 0 {
-			fmt.Printf("KNOWN-FINDING: property=%s finding=%s %s (seen %d times in this run)\n", ck.ID, k.Finding, k.Text, agg.Known[k.Finding])
-		}
-	}
-	printed := 0
-	for _, v := range agg.Violations {
-		if printed < 25 {
-			rp := v.Replay
-			if rp == "" {
-				rp = fmt.Sprintf("%s/replays/%s/%s-%d-%d(not-saved;regenerate:./check.sh replay-case %s %s %d %d)", root, ck.ID, tier, seed, v.Case, ck.ID, tier, seed, v.Case)
-			}
-			fmt.Printf("VIOLATION property=%s replay=%s\n", ck.ID, rp)
-			fmt.Printf("  monitor=%s sig=%s case=%d\n  expected: %s\n  observed: %s\n", v.Monitor, v.Sig, v.Case, oneLine(v.Expected), oneLine(v.Observed))
-			if v.Detail != "" {
-				fmt.Printf("  detail: %s\n", oneLine(v.Detail))
-			}
-		}
-		printed++
-	}
-	if len(agg.Violations) > 0 {
-		bySig := map[string]int{}
-		for _, v := range agg.Violations {
-			bySig[v.Sig]++
-		}
-		for _, k := range sortedKeys(bySig) {
-			fmt.Printf("  violations with sig %s: %d\n", k, bySig[k])
-		}
-	}
-	if printed > 25 {
-		fmt.Printf("  … %d further violations not printed\n", printed-25)
-	}
-	for _, c := range agg.Crashes {
-		fmt.Printf("CASE-LOST %s\n", oneLine(c))
-	}
-	for i, c := range agg.Inconclusive {
-		if i < 10 {
-			fmt.Printf("CASE-INCONCLUSIVE %s\n", oneLine(c))
-		}
-	}
-	fmt.Printf("%s %s seed=%d: cases=%d nontrivial=%d effective=%d violations=%d known=%d inconclusive=%d lost=%d wall=%.1fs\n",
-		ck.ID, tier, seed, agg.Evaluations, len(agg.NonTrivial), agg.Effective, len(agg.Violations), sumInts(agg.Known), len(agg.Inconclusive), len(agg.Crashes), wall)
-	evs := []string{}
-	for k, v := range agg.Events {
-		evs = append(evs, fmt.Sprintf("%s=%d", k, v))
-	}
-	sort.Strings(evs)
-	fmt.Printf("  observed: %s\n", strings.Join(evs, " "))
-	if verdict == 3 {
-		fmt.Printf("INCONCLUSIVE property=%s: %s\n", ck.ID, strings.Join(reasons, "; "))
-	}
-	return verdict
+	_ = lost
 }
 
 func sumInts(m map[string]int) int {
@@ -312,7 +361,7 @@ func firstLines(s string, n int) string {
 	return strings.Join(ls, " | ")
 }
 
-func writeEvidence(ck *Check, tier string, seed int64, agg *Agg, wall float64, root string, reasons []string) {
+func writeEvidence(ck *Check, tier string, seed int64, agg *Agg, wall float64, root string, reasons []string, san *sanitizerObs) {
 	cov := map[string]interface{}{
 		"evaluations":         agg.Evaluations,
 		"distinct_nontrivial": len(agg.NonTrivial),
@@ -344,6 +393,9 @@ func writeEvidence(ck *Check, tier string, seed int64, agg *Agg, wall float64, r
 	cov["samples"] = samples
 	if len(reasons) > 0 {
 		cov["inconclusive_reasons"] = reasons
+	}
+	if san != nil {
+		cov["sanitizer"] = san
 	}
 	ev := map[string]interface{}{
 		"property_id": ck.ID,
